@@ -104,6 +104,8 @@ type LogicalRequest struct {
 	// EnvoyBodyAsString: Envoy hands the buffered body either as raw_body (with_request_body.pack_as_bytes: true, the
 	// default here) or - its own default - as the string member body. It never fills both.
 	EnvoyBodyAsString bool
+	// EnvoyQuerySeparately: path and query in separate members of the check request (not what Envoy sends, see CheckRequest)
+	EnvoyQuerySeparately bool
 }
 
 type Entry string
@@ -223,7 +225,17 @@ func (lr LogicalRequest) CheckRequest() *envoy_auth.CheckRequest {
 		method = http.MethodGet
 	}
 
-	httpReq := &envoy_auth.AttributeContext_HttpRequest{Method: method, Scheme: scheme, Host: lr.Host, Path: lr.RawPath, Query: lr.RawQuery, Headers: hdrs}
+	// Envoy hands over the pseudo headers of the request together with the others
+	hdrs[":authority"], hdrs[":method"], hdrs[":path"], hdrs[":scheme"] = lr.Host, method, lr.target(), scheme
+
+	// Envoy's contract (envoy/service/auth/v3/attribute_context.proto): path is "the request target, as it appears in the first
+	// line of the HTTP request. This includes the URL path and query-string. No decoding is performed", query "is always empty,
+	// and exists for compatibility reasons". EnvoyQuerySeparately gives the shape heimdall's own tests use instead.
+	httpReq := &envoy_auth.AttributeContext_HttpRequest{Method: method, Scheme: scheme, Host: lr.Host, Path: lr.target(), Headers: hdrs}
+	if lr.EnvoyQuerySeparately {
+		httpReq.Path, httpReq.Query = lr.RawPath, lr.RawQuery
+	}
+
 	if lr.EnvoyBodyAsString {
 		httpReq.Body = string(lr.Body)
 	} else {
